@@ -123,6 +123,13 @@ theorem substitution_order_irrelevant (before before' : Str → Str → Bool)
   rw [substitution_lawful before hb vs t hnames hvals hjoin,
     substitution_lawful before' hb' vs' t hnames' hvals' hjoin', subst_congr hn hl]
 
+/-- The code's order is total on names: with distinct names (captured markers come out of a map) the variable
+list handed to `StaticOrDynamic::replace` — hence every substituted value, with or without the hypotheses of
+`substitution` — does not depend on the iteration order of that map.  (Repair 96f3afa of finding `hashmap-order`.) -/
+theorem variables_order_deterministic (vs vs' : List (Str × Str)) (t : Str) (hperm : vs.Perm vs')
+    (hnd : (names vs).Nodup) : replaceVars t (sortVars vs) = replaceVars t (sortVars vs') := by
+  rw [sortVars_perm vs vs' hperm hnd]
+
 /-- The other tie-break for equal-length names (descending names): also a lawful longest-first order. -/
 def varBeforeDesc (a b : Str) : Bool := decide (blen b < blen a) || (decide (blen a = blen b) && strLt b a)
 
